@@ -413,6 +413,25 @@ def _bound_clamped(f, body, acc):
     return None
 
 
+FN_CALLS = ("core::ops::function::FnMut::call_mut", "core::ops::function::FnOnce::call_once", "core::ops::function::Fn::call")
+
+
+def _helper_forwards(fx, g, _memo={}):
+    """The generic helper hands the result of the callable it is given straight back (`retry_intr`), as opposed to
+    completing it itself (`copy_chunks(n, fill, drain)` accumulates what `fill` returns until n is reached)."""
+    k = (id(fx), g.path)
+    if k not in _memo:
+        res = False
+        for bi, t in g.calls():
+            if (q.names(t)[0] or "") not in FN_CALLS or t["dest"].get("p"):
+                continue
+            cls, det = classify_count(fx, g, bi, t)
+            if "FORWARDED" in cls and not (cls & {"ACCUMULATED", "COMPARED"}):
+                res = True
+        _memo[k] = res
+    return _memo[k]
+
+
 def _sview(fx, f, _memo={}):
     k = (id(fx), f.path)
     if k not in _memo:
@@ -444,7 +463,8 @@ def run(fx, cfgname="A", reach=None):
                     # a workspace helper that is handed a count-returning closure and answers with a count of the same
                     # kind (`retry_intr(|| pread(..))`): the closure's obligation continues at the helper's result
                     fvs = [x for x in (t.get("fn") or {}).get("fnvals", []) if x in partial]
-                    if not (fvs and p in fx.fns and re.search(r"\b(usize|u64|isize|i64)\b", t.get("dest_ty") or "")):
+                    if not (fvs and p in fx.fns and re.search(r"\b(usize|u64|isize|i64)\b", t.get("dest_ty") or "")
+                            and _helper_forwards(fx, fx.fns[p])):
                         continue
                 # classified on the function's inlined view (own block and local indices kept): a private helper
                 # that checks or forwards the count (`nonzero(n)?`, `written_in_full(w, r)?`) is part of the flow
